@@ -46,6 +46,11 @@ def gen_cases(rng, tier):
     quick = tier == "quick"
     for _ in range(60 if quick else 3000):
         yield async_select_case(rng)
+    # records that must be skipped (foreign id, stale Params, an earlier stream) whose content + padding exceeds 65535 bytes
+    for kind in ("foreign-id", "stale-params", "earlier-stream"):
+        for _ in range(2 if quick else 12):
+            c, t = C02.huge_ignored_case(rng, kind)
+            yield c, ["huge-ignored"]
     for role in (1, 2, 3):
         for recv in (STDIN, DATA):
             for exp in (0, STDIN, DATA):
@@ -87,11 +92,11 @@ def gen_cases(rng, tier):
 
 
 def nontrivial(line, tags):
-    return "scrambled" in tags or "table" in tags or "async-select" in tags
+    return "scrambled" in tags or "table" in tags or "async-select" in tags or "huge-ignored" in tags
 
 
 def min_classes(tier):
-    return {"table": 18, "scrambled": 200, "compliant": 200, "async-select": 50}
+    return {"table": 18, "scrambled": 200, "compliant": 200, "async-select": 50, "huge-ignored": 6}
 
 
 TABLE = {}
